@@ -592,3 +592,64 @@ def run_nodepos(chk, F, rid="R-NODEPOS"):
                "checkExpression now reports a diagnostic on MITL_ATOM nodes themselves, but ExpressionBuilder builds "
                "them without a position (toMITLAtom, expr_MITL_diamond, expr_MITL_box)",
                "%s:%s" % (ce["file"], rep[0].get("l") if rep else ce["line"]))
+
+
+# ---------------------------------------------------------------------------------------------- R-IDRANGE
+def run_idrange(chk, G, rid="R-IDRANGE"):
+    """`expr_identifier(name)` is the callback that looks a name up and reports `$Unknown_identifier` at the builder's
+    current position - which CALL sets from its first two arguments.  C06 wants that range to be exactly the identifier:
+    the name comes from symbol $k, so the CALL must be CALL(@k, @k, ..)."""
+    chk.rule(rid, "every CALL(@i, @j, expr_identifier($k)) of the grammar has i = j = k: the position current during the "
+                  "lookup of a name is the name's own token")
+    n = 0
+    for r in G.rules:
+        for c in r.calls:
+            if c.name != "expr_identifier" or not c.args:
+                continue
+            v = G.arg_value(r, c.args[0])
+            if not (v and v[0] == "sym"):
+                continue
+            n += 1
+            h = G.host_rule(r)
+            sig = h.sig if r.host is not None else r.sig
+            chk.ob(rid, "%s#%d" % (sig, c.order), c.first == v[1] and c.last == v[1],
+                   "CALL(@%s, @%s, expr_identifier($%s)) in `%s`: an unknown name there is reported on the range @%s..@%s "
+                   "(`forall (i : idt` instead of `idt`)" % (c.first, c.last, v[1], sig, c.first, c.last),
+                   "src/parser.y:%s" % c.line)
+    if n < 4:
+        raise AnalysisBroken("%s: only %d expr_identifier calls with a name taken from a symbol" % (rid, n))
+    chk.analysed[rid] = {"identifier_lookups": n}
+
+
+# ---------------------------------------------------------------------------------------------- R-TYPEPOS
+def run_typepos(chk, F, rid="R-TYPEPOS"):
+    """The type checker reports problems of a declared type on the type's own top node (`handleError(type, ..)` in
+    checkType and in the statement visitors), and the builders put a prefix node on top of what the grammar handed them:
+    `const` on loop iterators, quantifier and select variables, `ref` on reference parameters.  A prefix created without
+    a position makes those diagnostics unpositioned (they are then resolved to the last line record of the document)."""
+    chk.rule(rid, "every type_t::create_prefix call in a builder callback passes a position (not the defaulted "
+                  "position_t()): prefix nodes are the top node of a declared type, which the type checker reports on")
+    n = 0
+    seen = {}
+    for fn in sorted(F.functions.values(), key=lambda f: (f.get("file") or "", f.get("line") or 0)):
+        q = fn.get("q", "")
+        if fn.get("body") is None or not any(q.startswith("UTAP::%s::" % c) for c in
+                                              ("DocumentBuilder", "StatementBuilder", "ExpressionBuilder", "AbstractBuilder")):
+            continue
+        for c in calls(fn["body"]):
+            if c.get("fn") != "UTAP::type_t::create_prefix":
+                continue
+            n += 1
+            args = c.get("args", [])
+            defaulted = len(args) < 2 or args[1].get("k") == "defarg"
+            kind = short(args[0]) if args else "?"
+            key = "%s|%s" % (fn["name"], kind)
+            seen[key] = seen.get(key, 0) + 1
+            chk.ob(rid, key if seen[key] == 1 else "%s#%d" % (key, seen[key]), not defaulted,
+                   "%s wraps a declared type in a %s prefix without a position: a diagnostic of the type checker on that "
+                   "type (`$Scalar_set_or_integer_expected`, `$Reference_to_this_type_not_allowed`, ..) has position "
+                   "unknown and is attributed to the last element of the document" % (q, kind),
+                   "%s:%s" % (fn["file"], c.get("l")))
+    if n < 6:
+        raise AnalysisBroken("%s: only %d create_prefix calls found in the builders" % (rid, n))
+    chk.analysed[rid] = {"prefix_creations": n}
